@@ -749,6 +749,60 @@ func c09OneDCase(r *fw.Rec, od c09OneD, nrandom int, sample bool) {
 		r.Sample(map[string]interface{}{"symbology": od.name, "to_writer": toWriter, "content": want, "obligations": "rot180 (default + TRY_HARDER), rot90/270 TRY_HARDER, upright", "rows_modules": gh})
 	}
 
+	// --- low strips: an image less than 32 pixels high whose bars lie entirely above (or below)
+	// the middle row, but within six rows of it; no TRY_HARDER.  The row scanner visits the
+	// middle row and then rows at growing distance on both sides, so the bars are reached;
+	// upside down the content comes with ORIENTATION 180.
+	for k := 0; k < 4; k++ {
+		hb, sc := 2+rng.Intn(3), 2+rng.Intn(2) // 4..12 pixel rows of bars
+		m, ok := render(hb)
+		if !ok {
+			return
+		}
+		bars := hb * sc
+		p := c09Pose{Scale: sc, Rot: 180 * (k % 2)}
+		p.PadL, p.PadR = 12+rng.Intn(20), 12+rng.Intn(20)
+		// paddings are in modules; the geometry is judged in pixels
+		near := rng.Intn(2)
+		var fars []int
+		for far := 0; far < 32; far++ {
+			H := (near + hb + far) * sc
+			mid := H / 2
+			end := (near + hb) * sc // first white pixel row behind the bars
+			if H < 32 && mid >= end && mid-(end-1) <= 6 {
+				fars = append(fars, far)
+			}
+		}
+		if len(fars) == 0 {
+			continue
+		}
+		far := fars[rng.Intn(len(fars))]
+		H := (near + hb + far) * sc
+		if rng.Bool() {
+			p.PadT, p.PadB = near, far
+		} else {
+			p.PadT, p.PadB = far, near
+		}
+		img := c09Render(m, p)
+		info := c09Merge(base, p)
+		info["image_height_pixels"] = H
+		out, res := c09Outcome(r, od.name, rd, img, p.hints(), want, info, p.Rot)
+		if out == "" {
+			return
+		}
+		if out != "read" {
+			r.Violation("orientation", fmt.Sprintf("%s:low-strip-rot%d-not-read", od.name, p.Rot), fmt.Sprintf("%s symbol %q, %d pixel rows of bars in a strip %d pixels high (middle row white, bars within six rows of it), rotation %d, was not read: %s", od.name, want, bars, H, p.Rot, out), info)
+			return
+		}
+		if p.Rot == 180 {
+			if v, isInt := res.GetResultMetadata()[gozxing.ResultMetadataType_ORIENTATION].(int); !isInt || v != 180 {
+				r.Violation("orientation", od.name+":rot180-orientation-metadata", fmt.Sprintf("%s symbol %q upside down in a low strip was read without ORIENTATION 180", od.name, want), info)
+				return
+			}
+		}
+		r.Tally("oned_low_strip_reads")
+	}
+
 	// --- arbitrary poses: content or typed error ---
 	for i := 0; i < nrandom; i++ {
 		h := 1 + rng.Intn(60)
@@ -892,6 +946,7 @@ func c09(c *fw.Ctx) {
 	}
 
 	c.Floor("poses", int64(c.Pick(35000, 700000)))
+	c.Floor("oned_low_strip_reads", int64(c.Pick(1500, 30000)))
 	c.Floor("qr_decoder_upright_ok", int64(c.Pick(500, 16000)))
 	c.Floor("qr_decoder_mirrored_ok", int64(c.Pick(500, 16000)))
 	c.Floor("QR_CODE_read_at_scale_ge3", int64(c.Pick(1000, 30000)))
